@@ -78,7 +78,7 @@ structure RInv (sh : Sh) (r : R) : Prop where
   res : ∀ l, l ∈ r.result → l ∈ r.mapping ∧ ∃ d, sh.ids[l]? = some d ∧ inR r.range d.mid = true ∧
       r.qfrom ≤ d.mid ∧ d.mid ≤ r.qto ∧ (r.q.positive = true → sat r.q d = true)
   fetched : ∀ id res, (id, res) ∈ r.fetched → ∀ l d, l < r.nidsAt → sh.ids[l]? = some d → d.id = id →
-      ∃ b off, res = .found b off ∧ b < r.nblocks
+      ∃ b off, res = .found b off
 
 theorem RInv.mono {a b : Sh} {r : R} (h : RInv a r) (e : Ext a b) : RInv b r := by
   refine ⟨fun m hm => e.range m (h.range m hm), Nat.le_trans h.nblocks e.blocks, Nat.le_trans h.nids e.len, ?_,
